@@ -4,11 +4,84 @@ from __future__ import annotations
 import json
 import random
 
-from .. import core, gen, sx
+from .. import core, gen, pymach as pm, pytrack as pt, sx
 
 THEOREMS = ['C12.python_pattern_operations_are_the_model', 'C12.peq_is_expansion_equality', 'C12.nary_transparent', 'C12.nary_head_and_rebuild', 'C12.peq_refl', 'C12.peq_symm', 'C12.peq_trans',
             'C12.evar_is_free_transparent', 'C12.metavars_transparent', 'C12.instantiate_transparent',
-            'C12.esubst_transparent', 'C12.ssubst_transparent', 'C12.simplify_transparent', 'C12.instantiate_compose']
+            'C12.esubst_transparent', 'C12.ssubst_transparent', 'C12.simplify_transparent', 'C12.instantiate_compose',
+            'C12.notation_text_is_the_model', 'C12.notation_text_evar_is_free', 'C12.notation_text_distinct_keys',
+            'C12.notation_text_transparent']
+
+
+def dormant_redundant_subst(p):
+    """a substitution node, anywhere in the pattern as WRITTEN (notation bodies and arguments included), that is redundant
+    — its head metavariable declares the substituted variable fresh, or its plug denotes the variable itself.  The
+    machine refuses to build such a node; the toolkit builds it, keeps it as long as nothing touches it (`instantiate`
+    with an empty map returns `self`) and normalises it away as soon as a substitution is re-applied — so the
+    syntactic transparency law is not expected of it (and `Shape`, the domain of the C12 theorems, excludes it)."""
+    k = p[0]
+    if k in ('esub', 'ssub'):
+        h = p[1]
+        while h[0] in ('esub', 'ssub'):
+            h = h[1]
+        if h[0] == 'mv' and p[2] in (h[2] if k == 'esub' else h[3]):
+            return True
+        try:
+            if pt.expand(p[3]) == (('evar' if k == 'esub' else 'svar'), p[2]):
+                return True
+        except Exception:   # noqa
+            pass
+        return dormant_redundant_subst(p[1]) or dormant_redundant_subst(p[3])
+    if k in ('imp', 'app'):
+        return dormant_redundant_subst(p[1]) or dormant_redundant_subst(p[2])
+    if k in ('ex', 'mu'):
+        return dormant_redundant_subst(p[2])
+    if k == 'inst':
+        return dormant_redundant_subst(p[1]) or any(dormant_redundant_subst(v) for _, v in p[2])
+    return False
+
+
+def mv_written(p, acc):
+    """all metavariable nodes of a pattern as written (notation bodies and arguments included)"""
+    k = p[0]
+    if k == 'mv':
+        acc.append(p)
+    elif k in ('imp', 'app'):
+        mv_written(p[1], acc); mv_written(p[2], acc)
+    elif k in ('ex', 'mu'):
+        mv_written(p[2], acc)
+    elif k in ('esub', 'ssub'):
+        mv_written(p[1], acc); mv_written(p[3], acc)
+    elif k == 'inst':
+        mv_written(p[1], acc)
+        for _, v in p[2]:
+            mv_written(v, acc)
+    return acc
+
+
+def constraint_violating_instantiation(b):
+    """a failed transparency law in which ONLY `instantiate` differs and the substitution binds a metavariable (of the
+    pattern as written, or of an argument) to a pattern that violates a freshness / polarity constraint the metavariable
+    declares: the toolkit accepts such an instantiation (`MetaVar.can_be_replaced_by` is a TODO stub returning True), and
+    a pending substitution that had vanished because of the declared freshness then behaves differently before and after
+    expansion.  Same root cause as the open findings of C02/C04 (`constraint`) and C13 (KF-C13-constraints)."""
+    if b['python'] != '(false instantiate)' or not b['request'].startswith('law-transparent'):
+        return False
+    try:
+        xs = sx.parse(b['request'])
+        d = {int(k): sx.pat_of_sx(v) for k, v in xs[3]}
+        recs = mv_written(sx.pat_of_sx(xs[4]), [])
+        for v in list(d.values()):
+            mv_written(v, recs)
+        for (_, mid, ef, sf, ps, ns, _) in recs:
+            if mid in d:
+                q = pt.expand(d[mid])
+                if any(not pm.e_fresh(q, e) for e in ef) or any(not pm.s_fresh(q, x) for x in sf) or \
+                        any(not pm.positive(q, x) for x in ps) or any(not pm.negative(q, x) for x in ns):
+                    return True
+    except Exception:   # noqa
+        return False
+    return False
 
 
 def run(rep):
@@ -32,7 +105,8 @@ def run(rep):
         d = gen.gen_delta(rng, rng.choice((0, 1, 2)))
         lines.append(('peq', a, b))
         laws.append(('law-eq', a, b))
-        laws.append(('law-transparent', x, plug, d, a))
+        if not (dormant_redundant_subst(a) or dormant_redundant_subst(plug) or any(dormant_redundant_subst(v) for _, v in d)):
+            laws.append(('law-transparent', x, plug, d, a))
     # shipped notations at random arguments, nested to depth 4
     for label, arity, body, _, _ in gen.shipped_notations():
         for _ in range(4 if quick else 40):
@@ -40,7 +114,9 @@ def run(rep):
             a = ('inst', body, args)
             lines.append(('peq', a, ('expand', a)))
             laws.append(('law-eq', a, ('expand', a)))
-            laws.append(('law-transparent', rng.choice(gen.IDS), gen.gen_npat(rng, 1), gen.gen_delta(rng, 1), a))
+            x_, plug_, d_ = rng.choice(gen.IDS), gen.gen_npat(rng, 1), gen.gen_delta(rng, 1)
+            if not (dormant_redundant_subst(a) or dormant_redundant_subst(plug_) or any(dormant_redundant_subst(v) for _, v in d_)):
+                laws.append(('law-transparent', x_, plug_, d_, a))
     # two applications of the SAME notation body whose maps differ: permuted keys, permuted values, a dropped or a
     # superfluous entry, a change in a position the body does not use
     for label, arity, body, _, _ in gen.shipped_notations():
@@ -118,8 +194,14 @@ def run(rep):
     })
     known_shortcut = 0
     for b in bad:
-        rep.violation('notation is not transparent on the real code: ' + b['python'][:100], b, True,
-                      key='py-transparent:' + b['request'])
+        if constraint_violating_instantiation(b):
+            known_shortcut += 1
+            rep.violation('instantiate is not transparent when the substitution violates a declared metavariable constraint', b, True,
+                          key='py-inst:constraint-violating-instantiation')
+        else:
+            rep.violation('notation is not transparent on the real code: ' + b['python'][:100], b, True,
+                          key='py-transparent:' + b['request'])
+    rep.coverage['constraint_violating_instantiations'] = known_shortcut
     if not bad:
         for d in dis[:5]:
             rep.violation('Python == differs from the model of ==; no transparency failure found',
